@@ -166,3 +166,25 @@ ob(name='tracer.nesting', kind='FC+', props=['C17', 'C14'], unit='tracer', harne
    bound='loop-free; nesting precondition: tracers are destroyed in reverse order of construction (stated assumption of C14/C17)')
 ob(name='tracer.trace_agent', kind='FC+', props=['C17', 'C08'], unit='tracer', harness='h_tracer.c', entry='t_agent', unwind=26)
 ob(name='reporter.set_reporter', kind='FC+', props=['C16', 'C15'], unit='tracer', harness='h_tracer.c', entry='r_set_reporter', unwind=4)
+
+# ----------------------------------------------------------------------------------------------
+# unit list_prims: intrusive ring primitives under DFCC function contracts (C14 core; used by C04/C06 arguments)
+UNITS['list_prims'] = {
+    'opaque': [], 'dyn_types': [],
+    'roots': {
+        'UNLINK': '9list_elemINS_17call_matcher_baseIFiiEEEE6unlinkEv', 'IS_LINKED': '9list_elemINS_17call_matcher_baseIFiiEEEE9is_linkedEv',
+        'PUSH_FRONT': '4listINS_17call_matcher_baseIFiiEEENS_15ignore_disposerEE10push_frontEPS3_', 'PUSH_BACK': '4listINS_17call_matcher_baseIFiiEEENS_15ignore_disposerEE9push_backEPS3_',
+        'LE_MOVE_ASSIGN': '9list_elemINS_17call_matcher_baseIFiiEEEEaSEOS4_', 'LE': r'rec:^list_elem<call_matcher_base<int\(int\)>>$',
+        'LIST': r'rec:^list<call_matcher_base<int\(int\)>,ignore_disposer>$', 'CMB': r'rec:^call_matcher_base<int\(int\)>$',
+        'EXPS_MOVE': '12expectationsILb1EFiiEEC1EOS2_', 'MEXPS': r'rec:^expectations<true,int\(int\)>$',
+    },
+}
+for fn, entry in (('UNLINK', 'p_unlink'), ('IS_LINKED', 'p_is_linked'), ('PUSH_FRONT', 'p_push_front'), ('PUSH_BACK', 'p_push_back'), ('LE_MOVE_ASSIGN', 'p_move_assign')):
+    ob(name='list_prims.%s.contract' % fn.lower(), kind='FC', props=['C14'] + (['C04'] if fn in ('UNLINK', 'IS_LINKED') else []) + (['C02'] if fn == 'PUSH_FRONT' else []) + (['C03', 'C06'] if fn == 'PUSH_BACK' else []),
+       unit='list_prims', specs=['list_prims.spec'], contracts=[fn], harness='h_list_prims.c', entry=entry, enforce=fn,
+       bound='none: rings of any length (only self, next, prev are touched); alias shapes 0/1/2 each reachable')
+ob(name='list_prims.shapes_cover', kind='FC', props=['C14'], unit='list_prims', harness='h_list_prims.c', entry='p_shapes_cover', unwind=6,
+   bound='meta-obligation: the three alias shapes used in the contracts are exhaustive and disjoint (checked on rings of 1..4 nodes; shapes only distinguish 1, 2, >=3)')
+ob(name='list_prims.mock_move', kind='FC+', props=['C14'], unit='list_prims', harness='h_list_prims.c', entry='p_exps_move', unwind=4,
+   variants=[('A%dS%d' % (na, ns), {'NA': na, 'NS': ns}) for na in (0, 1, 2) for ns in (0, 1, 2)], min_reach=0,
+   bound='active and saturated lists of 0..2 expectations each (the move touches only the two sentinels and their neighbours: list_elem::operator=(&&) contract)')
